@@ -89,7 +89,7 @@ func OracleC27(r *Result) []Viol {
 		}
 	}
 	for _, v := range r.Viol {
-		if v.Sig == "conn-shared" {
+		if v.Sig == "conn-shared" || strings.HasPrefix(v.Sig, "close-panics") {
 			vs = append(vs, v)
 		}
 	}
@@ -104,7 +104,7 @@ func OracleC28(r *Result) []Viol {
 	var vs []Viol
 	add := func(sig, f string, a ...interface{}) { vs = append(vs, Viol{sig, fmt.Sprintf(f, a...)}) }
 	for _, v := range r.Viol {
-		if strings.HasPrefix(v.Sig, "waiter-starved") || v.Sig == "close-hangs" {
+		if strings.HasPrefix(v.Sig, "waiter-starved") || v.Sig == "close-hangs" || strings.HasPrefix(v.Sig, "close-panics") {
 			vs = append(vs, v)
 		}
 	}
